@@ -396,7 +396,10 @@ fn ser_into_cap(n: usize, r: &ctap2::Response, content: &[u8]) -> Result<Vec<u8>
         2 => ser_into::<2>(r, content),
         3 => ser_into::<3>(r, content),
         8 => ser_into::<8>(r, content),
+        38 => ser_into::<38>(r, content),
+        42 => ser_into::<42>(r, content),
         64 => ser_into::<64>(r, content),
+        128 => ser_into::<128>(r, content),
         _ => machinery_panic("history capacity not instantiated"),
     }
 }
@@ -472,6 +475,17 @@ pub fn build(g: &Gen) -> ctap2::Response {
             r.retries = Some(8);
             ctap2::Response::ClientPin(r)
         }
+        "ga-count" | "gna-plain" => {
+            // an assertion announcing l credentials / a follow-up assertion without a count
+            let cred = ctap_types::webauthn::PublicKeyCredentialDescriptor { id: ctap_types::Bytes::from_slice(&fill_bytes(16, 4)).unwrap(), key_type: ctap_types::String::from("public-key") };
+            let mut r = ctap2::get_assertion::ResponseBuilder { credential: cred, auth_data: ctap_types::Bytes::from_slice(&fill_bytes(37, 5)).unwrap(), signature: ctap_types::Bytes::from_slice(&fill_bytes(8, 6)).unwrap() }.build();
+            if g.family == "ga-count" {
+                r.number_of_credentials = Some(l as u32);
+                ctap2::Response::GetAssertion(r)
+            } else {
+                ctap2::Response::GetNextAssertion(r)
+            }
+        }
         "ga-authdata" | "gna-authdata" => {
             let cred = ctap_types::webauthn::PublicKeyCredentialDescriptor { id: ctap_types::Bytes::from_slice(&fill_bytes(16, 4)).unwrap(), key_type: ctap_types::String::from("public-key") };
             let r = ctap2::get_assertion::ResponseBuilder { credential: cred, auth_data: ctap_types::Bytes::from_slice(&fill_bytes(l, 5)).unwrap(), signature: ctap_types::Bytes::from_slice(&fill_bytes(70, 6)).unwrap() }.build();
@@ -507,6 +521,13 @@ pub fn build(g: &Gen) -> ctap2::Response {
             x5c.push(ctap_types::Bytes::from_slice(&fill_bytes(l, 8)).unwrap()).unwrap();
             r.att_stmt = Some(ctap2::AttestationStatement::Packed(ctap2::PackedAttestationStatement { alg: -7, sig: ctap_types::Bytes::from_slice(&fill_bytes(71, 9)).unwrap(), x5c: Some(x5c) }));
             ctap2::Response::GetAssertion(r)
+        }
+        "cm-meta" => {
+            // credential-management metadata: a two-member map {1: .., 2: ..}
+            let mut r = ctap2::credential_management::Response::default();
+            r.existing_resident_credentials_count = Some(l as u32);
+            r.max_possible_remaining_residential_credentials_count = Some(24);
+            ctap2::Response::CredentialManagement(r)
         }
         "cm-count" => {
             // integer head widths: 0, 24, 256, 65536 change the body size by 0/1/2/4 bytes
@@ -703,7 +724,7 @@ impl Space for Reuse {
 
 fn history_alphabet() -> Vec<Gen> {
     let g = |family, len| Gen { family, len };
-    vec![g("reset", 0), g("cp-empty", 0), g("lb-empty", 0), g("cp-token", 0), g("cp-token", 1), g("cp-token", 4), g("cp-token", 5), g("cp-token", 48), g("cm-count", 0), g("cm-count", 1), g("ga-authdata", 37), g("getinfo", 0)]
+    vec![g("reset", 0), g("cp-empty", 0), g("lb-empty", 0), g("cp-token", 0), g("cp-token", 1), g("cp-token", 4), g("cp-token", 5), g("cp-token", 48), g("cm-count", 0), g("cm-count", 1), g("ga-authdata", 37), g("getinfo", 0), g("getinfo-algs", 0), g("getinfo-algs", 1), g("getinfo-algs", 2), g("ga-count", 2), g("gna-plain", 0), g("cm-meta", 3)]
 }
 
 pub fn run(ctx: &'static Ctx) {
@@ -760,10 +781,44 @@ pub fn run(ctx: &'static Ctx) {
             l.fail(ctx, idx, v, || cjson(g, n, p));
         }
     });
-    for n in [1usize, 2, 3, 8, 64] {
+    for n in [1usize, 2, 3, 8, 38, 42, 64, 128] {
         let alpha = Arc::new(history_alphabet());
         // reachable states: the initial one plus, per depth, one state per distinct (output, response)
-        explore(ctx, Reuse { n, alphabet: alpha, max: 3 }, None, "every history of up to 3 serialisations of 12 responses into one reused buffer, deduplicated on (buffer content, last response, depth)");
+        explore(ctx, Reuse { n, alphabet: alpha, max: 3 }, None, "every history of up to 3 serialisations of 18 responses into one reused buffer, deduplicated on (buffer content, last response, depth)");
+    }
+    // the same histories once more as contiguous call sequences on one worker (state the crate
+    // keeps between calls follows the order of calls, not the shape of the state graph)
+    for n in [8usize, 42, 128] {
+        let alpha = history_alphabet();
+        let k = alpha.len() as u64;
+        let ar = &alpha;
+        sweep_seq(ctx, &format!("contiguous serialize sequences of length 3 into capacity {}", n), k * k * k, "every sequence of three responses of the history alphabet serialised one after the other, each into a fresh buffer and all into one reused buffer: every result as on its own", move |idx, l| {
+            let seq = [(idx / (k * k)) as usize, (idx / k % k) as usize, (idx % k) as usize];
+            l.nontrivial += 1;
+            l.bump("call sequence");
+            for reuse in [false, true] {
+                let mut buf: Vec<u8> = Vec::new();
+                for (step, a) in seq.iter().enumerate() {
+                    let g = &ar[*a];
+                    let r = build(g);
+                    let body = match body_of(&r) {
+                        Ok(b) => b,
+                        Err(_) => return,
+                    };
+                    let want = expected(&body, n);
+                    let got = match ser_into_cap(n, &r, if reuse { &buf } else { &[] }) {
+                        Ok(b) => b,
+                        Err(p) => vec![0xde, 0xad, p.len() as u8],
+                    };
+                    if !want.contains(&got) {
+                        let v = Verdict::fail(format!("{}|history-dependent-result", P), want.iter().map(|w| hex(w)).collect::<Vec<_>>().join(" or "), format!("{} at step {} of the sequence {:?} (capacity {}, {} buffer)", hex(&got), step + 1, seq.iter().map(|a| format!("{} {}", ar[*a].family, ar[*a].len)).collect::<Vec<_>>(), n, if reuse { "reused" } else { "fresh" }));
+                        l.fail(ctx, idx, v, || json!({"kind": "call-sequence", "capacity": n, "sequence": seq, "note": "re-run the check to replay: the outcome depends on process history"}));
+                        return;
+                    }
+                    buf = got;
+                }
+            }
+        });
     }
     let o1 = check(&Gen { family: "cp-empty", len: 0 }, 1, 0);
     let observed_o1 = ser_cap(1, &build(&Gen { family: "cp-empty", len: 0 }), 0).map(|b| hex(&b)).unwrap_or_default();
@@ -788,6 +843,7 @@ pub fn replay(case: &Value) -> Verdict {
             // the recorded state itself is checked against the oracle
             sp.check(&s)
         }
+        Some("call-sequence") => Verdict::pass(), // history-dependent: only a fresh run of the check reproduces it
         _ => machinery_panic("C17: unknown replay kind"),
     }
 }
